@@ -81,6 +81,11 @@ func (v *VMValue) ArrayFuncKeepBase(ctx *Context, pickNum IntType, orderType int
 		sort.Slice(nums, func(i, j int) bool { return nums[i] < nums[j] }) // 从小到大
 	}
 
+	// 取数个数不会超过元素个数，避免巨大的 pickNum 造成空转
+	if pickNum > IntType(len(nums)) {
+		pickNum = IntType(len(nums))
+	}
+
 	num := float64(0)
 	for i := IntType(0); i < pickNum; i++ {
 		// 当取数大于上限 跳过
